@@ -492,7 +492,7 @@ func c06RefTLSStream(s []byte) (r c06RefResult, recLen int) {
 
 // ---------------------------------------------------------------- HTTP/1 request head
 
-var c06Methods = []string{"GET", "POST", "PUT", "DELETE", "HEAD", "OPTIONS", "PATCH", "CONNECT", "TRACE"}
+var c06Methods = []string{"GET", "POST", "PUT", "DELETE", "HEAD", "OPTIONS", "PATCH", "CONNECT", "TRACE", "COPY", "LINK", "UNLINK", "PURGE", "LOCK", "UNLOCK", "PROPFIND"}
 
 type c06HTTPHead struct {
 	Head                   []byte
